@@ -359,7 +359,7 @@ fn real_threads(ctx: &Ctx, rounds: usize) {
                         if last_progress.elapsed().as_secs() >= 20 {
                             stuck.store(true, Ordering::SeqCst);
                             eprintln!("real-thread tier: publishers made no progress for 20 s ({} published after {:?})", p, start.elapsed());
-                            std::process::exit(if p < per * npub as u64 { 3 } else { 2 });
+                            std::process::exit(2); // inconclusive, never a violation (the hand-polled tier decides blocking)
                         }
                     }
                 });
@@ -416,7 +416,7 @@ pub fn run(ctx: &Ctx) -> &'static str {
     ctx.explore(
         "interleavings",
         "generated interleavings of subscribe / unsubscribe / publish bursts (1..139 events, 1..3 publishers numbering their events per topic) / receive-one / receive-all / close over 1..4 connections with channel capacities 1, 2, 8, 128; per-connection line monitor; non-trivial = >= 1 full-channel drop and (an unsubscribe with events still queued, or a closed receiver that met a publish)",
-        ctx.tier.pick(20_000, 600_000),
+        ctx.tier.pick(100_000, 1_000_000),
         || strategy(mo),
         |_| check,
     );
